@@ -64,9 +64,23 @@ std::int64_t MyChoose(int kind, std::uint64_t n) {
   return r;
 }
 
+std::string gScenario;
+std::uint64_t gResumes = 0;
+constexpr std::uint64_t kMaxResumes = 50000;  // a well-formed scenario needs a few hundred scheduler steps
+
 void MyResume(std::uint64_t id) {
   gOldResume(id);
   if (vrt::g.active && vrt::g.sched != nullptr) {
+    gResumes = vrt::g.trace.empty() ? 1 : gResumes + 1;
+    if (gResumes > kMaxResumes) {
+      // fibers keep waking each other (or a timed wait keeps re-arming) without any decision left to cut the
+      // execution: report it like a crash, with the replay, instead of hanging the check
+      std::printf("CRASH signal=0 choices=%s scenario=%s (livelock: more than %llu scheduler steps in one execution)\n",
+                  vrt::ChoicesToString(vrt::g.taken).c_str(), gScenario.c_str(),
+                  static_cast<unsigned long long>(kMaxResumes));
+      std::fflush(stdout);
+      _exit(70);
+    }
     // the first resume of an execution is the root fiber (its id is not known to the runtime yet)
     std::string name = vrt::g.trace.empty() ? std::string{"main"} : vrt::FiberName(id);
     vrt::g.trace += ">" + name + "@" + std::to_string(vrt::g.sched->GetTimeNs()) + ";";
@@ -621,6 +635,7 @@ void RunTls(const std::vector<Node>& prog) {
 }
 
 void RunNamed(const std::string& name) {
+  gScenario = name;
   auto parts = Split(name, '/');
   const std::string& cls = parts[0];
   if (cls == "thread" && parts.size() == 2) {
